@@ -88,6 +88,26 @@ impl AssemblyBuffer {
     // unwrap: u32 should fit into usize
     let from_byte = start_frag_from_0 * frag_size;
 
+    // Sanity check: The fragment numbers and sizes come from the network, and they
+    // need not be consistent with this AssemblyBuffer, e.g. fragments_in_submessage
+    // may reach past the last fragment, or the fragment size may differ from what
+    // this buffer is being assembled with. Ignore such a DATAFRAG instead of
+    // panicking in the indexing below.
+    if start_frag_from_0 + frags_in_submessage > self.fragment_count
+      || from_byte > self.buffer_bytes.len()
+    {
+      warn!(
+        "Ignoring inconsistent DATAFRAG: fragment_starting_num={} fragments_in_submessage={} \
+         frag_size={} but fragment_count={} buffer length={}",
+        fragment_starting_num,
+        frags_in_submessage,
+        frag_size,
+        self.fragment_count,
+        self.buffer_bytes.len(),
+      );
+      return;
+    }
+
     // Last fragment might be smaller than fragment size
     // Copy reported number of fragments, or as much data as there is, whichever
     // ends first.
